@@ -268,11 +268,14 @@ pub struct Config {
     pub samples: usize,
     pub set_cap: usize,
     pub per_class: u64,
-    /// For harnesses whose environment is partly the real kernel / a runtime's helper thread: when
-    /// the two runs of the determinism self-check differ AND one of them violates the property,
-    /// the violation is what gets reported (a change to the code under test may make its behaviour
-    /// depend on timing; that must not turn a violation into a machinery error).  Two runs that
-    /// differ without any violation remain a machinery error.
+    /// When the two runs of the determinism self-check differ AND one of them violates the property,
+    /// the violation is what gets reported: a change to the code under test may make its behaviour
+    /// depend on timing (real kernel, a runtime's helper thread) or on process-wide state that
+    /// survives from one execution to the next (a static counter, a global budget); that must not
+    /// turn a violation into a machinery error.  Each execution is judged on its own, so the
+    /// violation stands; a replay in a fresh process may not reproduce it.  Two runs that differ
+    /// without any violation remain a machinery error.  On (the default) since the ninth seeded
+    /// round.
     pub violation_beats_nondeterminism: bool,
 }
 impl Default for Config {
@@ -286,7 +289,7 @@ impl Default for Config {
             samples: 3,
             set_cap: 40_000_000,
             per_class: 50,
-            violation_beats_nondeterminism: false,
+            violation_beats_nondeterminism: true,
         }
     }
 }
